@@ -9,6 +9,8 @@ with segyio and compared with the ORIGINAL (geometry, trace count, sample axis, 
 and with the SGZ (samples exactly for IEEE, within 2^-20 relative for IBM; trace order)."""
 import os
 
+from fractions import Fraction as Fr
+
 import numpy as np
 import segyio
 
@@ -130,14 +132,20 @@ def _worker(item):
                 ref = dec[:n].astype(np.float64)
                 tol = np.abs(ref) * 2.0 ** -20 + 1e-38
                 out['samples_vs_sgz'] = bool(got.shape == ref.shape and np.all(np.abs(got.astype(np.float64) - ref) <= tol))
-            # trace order against the SOURCE: the decode of trace i must be the codec image of source trace i, i.e. closer to it than to
-            # any other source trace (every source trace carries 1e3*(ordinal) in its values, see inputs.cube)
-            src_tr = np.stack([np.asarray(a.trace[i], dtype=np.float64) for i in range(a.tracecount)])
-            order_bad = []
-            for i in range(n):
-                dist = np.abs(src_tr - got[i].astype(np.float64)).mean(axis=1)
-                if int(np.argmin(dist)) != i:
-                    order_bad.append(i)
+            # trace order against the SOURCE, exactly: the SGZ decode of ordinal i is the ZFP image of source trace i at its place (edge-extended
+            # cube / section, zero-filled grid for an irregular survey) and the exported trace i is that decode (checked above)
+            src_tr = np.stack([np.asarray(a.trace[i], dtype=np.float32) for i in range(a.tracecount)])
+            gk, (gni, gnx), _ = GEOMS[c['geom']]
+            rate = Fr(c['rate'])
+            if gk in ('reg', 'irr'):
+                grid = np.zeros((gni, gnx, src_tr.shape[1]), dtype=np.float32)
+                for t, (i, x) in enumerate(pos):
+                    grid[i, x] = src_tr[t]
+                ideal = codec.ideal_volume(grid, rate, 'edge' if gk == 'reg' else 'constant')
+                want = np.stack([ideal[i, x] for (i, x) in pos])
+            else:
+                want = codec.ideal_volume(src_tr, rate, 'edge')
+            order_bad = [i for i in range(min(n, len(want))) if not codec.same_bits(dec[i], want[i])]
             out['order'] = order_bad[:5]
     except BaseException as e:
         if isinstance(e, (KeyboardInterrupt, SystemExit, MemoryError)):
@@ -184,8 +192,7 @@ def judge(run, c, r):
     if heur_ok:
         run.check(not r['headers'], 'C06.trace-headers', c, r['headers'], 'every word of every trace as the original')
     run.check(r['samples_vs_sgz'], 'C06.samples-equal-sgz-decode', c, None, 'exact (IEEE) / 2^-20 (IBM)')
-    if c['rate'] >= 8:
-        run.check(not r['order'], 'C06.trace-order', c, r['order'], 'exported trace i is source trace i')
+    run.check(not r['order'], 'C06.trace-order', c, r['order'], 'SGZ ordinal i (and so exported trace i) is the codec image of source trace i')
 
 
 def run(run):
